@@ -54,7 +54,9 @@ static void put_name(const char* s) {
         char tmp[64]; snprintf(tmp, sizeof tmp, "%.*s", (int)(n - 2), s + 1);
         if (all_digits(tmp)) { printf("%ld", 30000 + atol(tmp)); return; }
     }
-    printf("?%s", s);
+    /* a name outside the scheme (only a misparsed file gives one): hex, so that it cannot contain a separator */
+    putchar('?');
+    for (const unsigned char* q = (const unsigned char*)s; *q && q - (const unsigned char*)s < 40; q++) printf("%02x", *q);
 }
 
 static long logical_code(const carquet_logical_type_t* lt) {
@@ -223,12 +225,18 @@ static void do_builder(void) {
                     if (s->leaf_indices[i] != rs->leaf_indices[i] || strcmp(a->name, b->name) || a->type != b->type ||
                         a->type_length != b->type_length || a->repetition_type != b->repetition_type ||
                         s->max_def_levels[i] != rs->max_def_levels[i] || s->max_rep_levels[i] != rs->max_rep_levels[i] ||
-                        a->max_def_level != b->max_def_level || a->max_rep_level != b->max_rep_level) bad = i;
+                        a->max_def_level != b->max_def_level || a->max_rep_level != b->max_rep_level ||
+                        /* the logical type given to add_column must come back from the file (same union member and parameters) */
+                        a->has_logical_type != b->has_logical_type ||
+                        (a->has_logical_type && logical_code(&a->logical_type) != logical_code(&b->logical_type))) bad = i;
                 }
                 if (bad == -2) fputs(" RT=same", stdout);
                 else if (bad == -1) printf(" RT=counts:%d/%d:%d/%d", s->num_leaves, rs->num_leaves, s->num_elements, rs->num_elements);
-                else printf(" RT=column:%d:builder-def/rep=%d/%d:reader-def/rep=%d/%d", bad, (int)s->max_def_levels[bad],
-                            (int)s->max_rep_levels[bad], (int)rs->max_def_levels[bad], (int)rs->max_rep_levels[bad]);
+                else printf(" RT=column:%d:builder-def/rep/logical=%d/%d/%ld:reader-def/rep/logical=%d/%d/%ld", bad, (int)s->max_def_levels[bad],
+                            (int)s->max_rep_levels[bad],
+                            s->elements[s->leaf_indices[bad]].has_logical_type ? logical_code(&s->elements[s->leaf_indices[bad]].logical_type) : -1L,
+                            (int)rs->max_def_levels[bad], (int)rs->max_rep_levels[bad],
+                            rs->elements[rs->leaf_indices[bad]].has_logical_type ? logical_code(&rs->elements[rs->leaf_indices[bad]].logical_type) : -1L);
                 carquet_reader_close(r);
             }
             free(exact);
